@@ -314,7 +314,8 @@ pub fn generate(r: &mut Rng, hi: u64, lo: u64, other: (u64, u64)) -> TomlCase {
     let oh = num_text(r, other.0);
     let ol = num_text(r, other.1);
     let sp = |r: &mut Rng| -> &'static str { *r.pick(&[" = ", "=", " =  ", "= "]) };
-    let unknown = *r.pick(&["secs", "nanos", "Hi", "LO", "hi_", "low", "value", "h"]);
+    // a quoted key takes any name (JSON string escaping is valid TOML basic-string escaping here)
+    let unknown = serde_json::to_string(&crate::vocab::unknown_name(r)).unwrap_or_else(|_| "\"x\"".into());
     let (fields, shape): (String, &'static str) = match r.below(16) {
         0..=6 => (format!("hi{}{nh}\nlo{}{nl}\n", sp(r), sp(r)), "hi_lo"),
         7..=9 => (format!("lo{}{nl}\nhi{}{nh}\n", sp(r), sp(r)), "lo_hi"),
